@@ -399,6 +399,31 @@ def run_copies(template, rng, rec, mon):
 
     ways = ["deepcopy", "pickle", "deepcopy"]
     objs = [template]
+    # two more computers of the same configuration, each built through the alias factory from an equal, flat mapping (the bank
+    # object, numbers and strings): two builds are two computers
+    inf0 = compmon.info(template)
+    if inf0 and inf0["args"] is not None:
+        from pydrobert.speech.alias import alias_factory_subclass_from_arg
+        from pydrobert.speech.compute import FrameComputer
+
+        name = "stft" if inf0["kind"] == "stft" else "si"
+        flat = dict(inf0["args"], name=name, bank=template.bank)
+        try:
+            b1 = alias_factory_subclass_from_arg(FrameComputer, dict(flat))
+            b2 = alias_factory_subclass_from_arg(FrameComputer, dict(flat))
+            rec.count("pairs_of_computers_built_from_equal_mappings")
+            probe = gen.signal(rng, 2, "noise", np.float64)
+            with monitor.quiet():
+                b1.compute_chunk(probe)
+                st2 = bool(b2.started)
+                b1.finalize()
+            if st2:
+                mon.v("a computer built from a mapping reports started although only another computer, built from an equal mapping, was given a chunk", check="started",
+                      **mon.info(template))
+            else:
+                objs += [b1, b2]
+        except Exception as e:
+            rec.note("building from a flat mapping raised %r" % (e,))
     for w in ways[: int(rng.integers(1, 4))]:
         c = copied(template, w)
         mon.adopt(c, template)
